@@ -107,6 +107,39 @@ func c11Observe(path string, src []byte, withResolver bool) ([]obj, string) {
 			out = append(out, mapsRecord("decorator", af, df, d.Map))
 		}
 	}
+	// ... and asked again for the counterpart of every single node (what a caller does who carries
+	// information keyed by ast nodes over to dst): the answers are the recorded counterparts and the
+	// maps are what they were
+	asked, wrong := 0, ""
+	ast.Inspect(af, func(n ast.Node) bool {
+		switch n.(type) {
+		case nil, *ast.Comment, *ast.CommentGroup:
+			return false
+		}
+		asked++
+		want := d.Dst.Nodes[n]
+		var got dst.Node
+		var aerr error
+		if msg := guard(func() { got, aerr = d.DecorateNode(n) }); msg != "" || aerr != nil {
+			if wrong == "" {
+				wrong = fmt.Sprintf("DecorateNode(%T) on an already decorated node: %s %v", n, msg, aerr)
+			}
+			return true
+		}
+		if want != nil && got != want && wrong == "" {
+			wrong = fmt.Sprintf("DecorateNode(%T) on an already decorated node returns another node than Dst.Nodes records", n)
+		}
+		return true
+	})
+	if wrong != "" {
+		return out, wrong
+	}
+	if asked > 0 {
+		rec := mapsRecord("decorator", af, df, d.Map)
+		rec["side"] = "decorator"
+		rec["call"] = 3
+		out = append(out, rec)
+	}
 	var r *decorator.Restorer
 	if withResolver {
 		r = decorator.NewRestorerWithImports("example.com/local", guess.New())
